@@ -259,3 +259,27 @@ def size(n):
         elif x[0] == "fn":
             stack.extend(a for a in x[2:] if isinstance(a, tuple))
     return c
+
+
+def subst(n, mapping, memo=None):
+    """replace nodes according to `mapping` (node -> node), rebuilding with the plain constructors"""
+    if memo is None:
+        memo = {}
+    if n in mapping:
+        return mapping[n]
+    if n in memo:
+        return memo[n]
+    k = n[0]
+    if k in ("atom", "lit", "i2f", "opq"):
+        r = n
+    elif k == "neg":
+        r = mk("neg", subst(n[1], mapping, memo))
+    elif k in ("add", "sub", "mul", "div"):
+        r = mk(k, subst(n[1], mapping, memo), subst(n[2], mapping, memo))
+    elif k == "fn":
+        r = ("fn", n[1]) + tuple(subst(a, mapping, memo) if isinstance(a, tuple) and a and a[0] in
+                                 ("atom", "lit", "i2f", "add", "sub", "mul", "div", "neg", "fn", "opq") else a for a in n[2:])
+    else:
+        r = n
+    memo[n] = r
+    return r
